@@ -8,7 +8,7 @@ SRC="$1"; ID="$2"; PROP="$3"; EXTRA="${4:-}"
 WT=/tmp/vet-wt
 if [ ! -d "$WT" ]; then git -C /repo worktree add -q --detach "$WT" HEAD || exit 2; fi
 git -C "$WT" checkout -q --detach "$(git -C /repo rev-parse HEAD)" 2>/dev/null
-git -C "$WT" checkout -- . ; rm -rf "$WT/tests"
+git -C "$WT" checkout -- . ; git -C "$WT" clean -fdq -- src; rm -rf "$WT/tests"
 cd "$WT" || exit 2
 if ! git apply --check "$SRC/patch.diff" 2>/dev/null; then echo "$ID: patch does not apply"; exit 1; fi
 mkdir -p tests; cp "$SRC/demo.rs" tests/demo.rs
@@ -21,7 +21,7 @@ cargo test --workspace --offline >/tmp/vet-t1.log 2>&1; t1=$?
 cargo test --offline --all-features >/tmp/vet-t2.log 2>&1; t2=$?
 mv /tmp/vet-tests-aside tests
 demo; mut=$?
-git checkout -- . ; rm -rf tests
+git checkout -- . ; git clean -fdq -- src; rm -rf tests
 echo "$ID: demo_without_patch=$base (want 0) suite_default=$t1 (want 0) suite_all_features=$t2 (want 0) demo_with_patch=$mut (want !=0)"
 if [ $base = 0 ] && [ $t1 = 0 ] && [ $t2 = 0 ] && [ $mut != 0 ]; then
   mkdir -p /verif/seeded/$ID
